@@ -413,6 +413,12 @@ def run_C06(ctx):
     # histories of builds in one process over files that change between builds
     res4 = ctx.vh("c06-history", ctx.seed, 60 if ctx.quick else 600, timeout=600)
     ctx.absorb(res4, "G:c06-history")
+    # M+G: every history of builds over changing files and a process-wide pool of option values (MC_C06)
+    r5 = ctx.tlc("MC_C06", cfg="MC_C06_quick.cfg" if ctx.quick else "MC_C06_thorough.cfg", timeout=1800)
+    res5 = ctx.vh("c06-hist-replay", r5.out, timeout=3000)
+    ctx.absorb(res5, "G:c06-hist-replay")
+    st = ctx.vh("c06-hist-replay", r5.out, "selftest", timeout=3000)
+    ctx.selftest(st["n_mismatch"] == st["cases"], "C06 G: corrupted outcome classes of every history are reported")
 
 
 # ------------------------------------------------------------------------ C18
